@@ -47,17 +47,16 @@ TRUSTED = [
     "space.agents enumerates cell by cell in the space's own cell order and inside a cell in arrival order (properties C06/C08/C10 own that; here it is the model's `spaceAgents`, compared on every scenario)",
 ]
 ASSUMPTIONS = [
-    "portrayal values are hashable scalars (colour names, marker symbols, ints; alpha as a float); colours mixing names and RGB tuples are outside the generator",
-    "2-D spaces; networks with at least two nodes (a one-node layout has zero extent: default marker size (180/0)^2 = inf, see design.d/C20.md)",
-    "a property layer drawn without explicit vmin/vmax is not constant (0/0 normalisation)",
+    "portrayal values are colour names, RGB / RGBA tuples (also mixed, V14), marker symbols, ints; alpha as a float; numbers to be colour-mapped are outside the generator",
+    "2-D spaces",
 ]
-RULE = ("40% space scenarios: one of 12 space classes (4 mesa.space grids, 3 discrete_space grids, 2 networks with shuffled / "
+RULE = ("40% space scenarios: one of 12 space classes (4 mesa.space grids, 3 discrete_space grids, 2 networks with 1-6 nodes, shuffled / "
         "non-contiguous node labels and possibly no edges, Voronoi, 2 continuous spaces), sizes 1-5, 0-6 agents with several per cell, "
-        "agents never placed, a pool of 0-4 portrayal dict *objects* shared between agents (keys color/size/marker/zorder, the optional "
+        "agents never placed, a pool of 0-4 portrayal dict *objects* shared between agents (keys color/size/marker/zorder, colours as names and as RGB(A) tuples — none / all / mixed —, the optional "
         "alpha/edgecolors/linewidths under an all/none/some policy, unsupported keys), interleaved place/move/remove/dict-rewrite/"
         "re-portray ops and observations collect_agent_data / draw_space (Agg) / Altair _draw_grid / the solara components SpaceMatplotlib "
         "and SpaceAltair / heap dump / property layer "
-        "(colormap or colour mode, explicit or automatic range), including observations of the space without agents; "
+        "(colormap or colour mode, explicit or automatic range, constant layers), including observations of the space without agents; "
         "60% parameter scenarios: 1-3 generated __init__ signatures (instance parameter named self/this, positional-only, missing; "
         "positional-only, positional-or-keyword, *args, keyword-only, **kwargs under any name, defaults) each with 2-6 key sets "
         "(required names mostly present, extras, the instance's name, positional-only names) through _check_model_params, "
